@@ -31,6 +31,10 @@ def run(ctx, facts):
     ctx.rule("A6", "entries are linked / unlinked, values swapped and bins replaced only under the bin lock (rule L2 of C01): a writer that "
                    "changes a value without the lock lands in the middle of a compute_if_present on the same key", floor=30)
     rule_l2(ctx, facts, rule="A6")
+    ctx.rule("A7", "compute_if_present tries again when the bin it locked is no longer the head (rule L14 of C01): giving up there skips the "
+                   "remapping function for a key that is present", floor=2)
+    from .rules_c01 import rule_l14
+    rule_l14(ctx, facts, rule="A7", only=("map::HashMap::compute_if_present",))
     cip = facts.body("map::HashMap::compute_if_present")
     fl = flow(cip)
     vs = [v for v in validated_regions(cip) if bin_lock_region(v.region)]
